@@ -4591,8 +4591,9 @@ def missing_context_manager(source: str) -> str:
         root, template, object, expand_last=True
     ):
         target_template = ast.Name(id=target.id)
+        nodes = [tup[0] for tup in nodes]
         if any(
-            isinstance(node, (ast.Yield, ast.Return)) and core.walk(node, target_template)
+            isinstance(node, (ast.Yield, ast.Return)) and any(core.walk(node, target_template))
             for node in nodes
         ):
             continue
@@ -4600,7 +4601,6 @@ def missing_context_manager(source: str) -> str:
         if any(core.filter_nodes(nodes, (ast.FunctionDef, ast.ClassDef, ast.AsyncFunctionDef))):
             continue
 
-        nodes = [tup[0] for tup in nodes]
         while nodes:
             if core.walk(nodes[-1], target_template):
                 break
